@@ -193,6 +193,16 @@ def run(ctx):
                           {"property": "C13", "part": "complete", "workspace": {"files": {"/w/main.td": t}, "root": "/w/main.td"},
                            "directed": k, "site": site})
             found = True
+    # operands of an unknown (not inferable) type in every operator / operand position: no diagnostic
+    unk = tdgen.unknown_operand_cases()
+    unk = unk if not ctx.quick else ctx.rng.sample(unk, 60)
+    for w, o in zip(unk, sl.impl(bindir, [{"files": x["files"], "root": x["root"]} for x in unk], offsets="none")):
+        if o.get("panic") or o["diagnostics"]["/w/main.td"]:
+            ctx.violation("false positive on an operand of unknown type (%s, operand %d as %s): %r" % (
+                w["op"], w["operand"], w["how"], o.get("diagnostics")),
+                {"property": "C13", "part": "sound", "workspace": {"files": w["files"], "root": w["root"]},
+                 "diagnostics": o.get("diagnostics")})
+            found = True
     fam = tdgen.known_if_siblings(ctx.rng, 12)
     kf_hit = 0
     for w, o in zip(fam, sl.impl(bindir, [{"files": x["files"], "root": x["root"]} for x in fam], offsets="none")):
@@ -242,6 +252,7 @@ def run(ctx):
         "well_formed_programs": len(progs), "single_fault_mutants": len(faults),
         "fault_classes": per_class, "correspondence_cases": n_corr, "correspondence_disagreements": len(broken),
         "known_finding_family": {"cases": len(fam), "reproduced": kf_hit},
+        "unknown_operand_family": len(unk),
         "rule": "sound: generated well-formed Core programs have no diagnostic in any file; complete: one mutant per "
                 "fault class and program - a diagnostic of the class covering the seeded site in the seeded file and "
                 "none in untouched files; model == implementation on all of them",
